@@ -319,3 +319,303 @@ Proof.
   - injection E as E1 E2 E3. subst o1 sc1 mid. rewrite (run_cons_ok le t o0 sc0 m1 Hna). cbn [fst].
     exact (IH _ uuid Hrest Hn2 m1 o sc m2 eq_refl).
 Qed.
+
+(* ------------------------------------------------------------------------------------------ *)
+(* 3. C09 *)
+
+(* the subscription window of u as the table holds it *)
+Definition window (t : tower) (u : N) : option (N * N) :=
+  option_map (fun ui => (u_start ui, u_expiry ui)) (aget (db_users t) u).
+
+(* ... and after one step, as a function of the window before, the operation and its reply *)
+Definition window_after (t : tower) (o : op) (x : out) (u : N) : option (N * N) :=
+  match o, x with
+  | ORegister v, ORegisterRes (RegOk _ _ _) =>
+      if N.eqb u v then
+        match window t u with
+        | None => Some (gk_height t, gk_height t + c_duration (cfg t))
+        | Some (s, e) => Some (s, N.min U32MAX (e + c_duration (cfg t)))
+        end
+      else window t u
+  | OConnect _ _, _ =>
+      match window t u with
+      | Some (s, e) => if N.leb (e + c_delta (cfg t)) (gk_height t + 1) then None else Some (s, e)
+      | None => None
+      end
+  | _, _ => window t u
+  end.
+
+Lemma same_ledger_window t t' u : TowerLedger.same_ledger t t' -> window t' u = window t u.
+Proof. intros [_ [Hu _]]. unfold window. rewrite Hu. reflexivity. Qed.
+
+(* ONE STEP: a window is created by the first registration (start = the gatekeeper's height, expiry = start +
+   duration), pushed back by one duration (saturating) by each granted renewal OF THAT USER, removed by a block
+   at height >= expiry + grace, and touched by nothing else *)
+Theorem window_step le t o sc u :
+  BigInv t -> envb t o = true ->
+  window (fst (step le t o sc)) u = window_after t o (snd (step le t o sc)) u.
+Proof.
+  intros HB He. pose proof (step_never_aborts le t o sc HB He) as Hna. pose proof (bi_inv t HB) as HI.
+  destruct (step le t o sc) as [t' x] eqn:Es. cbn [fst snd] in *.
+  pose proof (TowerLedger.step_out_shape le t o sc t' x Es) as Hshape.
+  destruct o as [v|signer loc b delay sig|signer loc|signer|hash txs|]; destruct x as [r|r|r|r| |s]; try contradiction.
+  - (* register *)
+    cbn [envb] in He. destruct (gk_get t v) as [ui|] eqn:Eg.
+    + assert (Eu : aget (db_users t) v = Some ui) by (rewrite <- (inv_sync t HI); exact Eg).
+      destruct (N.leb_spec (u_slots ui + c_slots (cfg t)) U32MAX) as [Hs|Hs].
+      * rewrite (register_renew le t sc v ui Eg Hs) in Es. injection Es as <- <-. cbn [window_after].
+        unfold window, p_set_user, db_update_user. cbn [db_users set_db_users gk_put set_gk_users fresh set_rpc_log].
+        rewrite aget_map_update. destruct (N.eqb u v) eqn:Ev; [|reflexivity].
+        apply N.eqb_eq in Ev. subst u. rewrite Eu. reflexivity.
+      * rewrite (register_max_slots le t sc v ui Eg Hs) in Es. injection Es as <- <-. reflexivity.
+    + apply andb_true_iff in He. destruct He as [He1 _]. apply N.leb_le in He1.
+      assert (Eu : aget (db_users t) v = None) by (rewrite <- (inv_sync t HI); exact Eg).
+      assert (Hm : amem (db_users t) v = false) by (unfold amem; rewrite Eu; reflexivity).
+      rewrite (register_new le t sc v Eg Hm) in Es by lia. injection Es as <- <-. cbn [window_after].
+      unfold window, p_new_user. cbn [db_users set_db_users gk_put set_gk_users fresh set_rpc_log].
+      rewrite aget_app_single. destruct (N.eqb u v) eqn:Ev.
+      * apply N.eqb_eq in Ev. subst u. rewrite Eu. reflexivity.
+      * destruct (aget (db_users t) u); reflexivity.
+  - (* add *)
+    cbn [window_after]. destruct r as [st sg sl e| | |];
+      try exact (same_ledger_window t t' u (TowerLedger.add_refused_same le t signer loc b delay sig sc t' _ Es)).
+    destruct (TowerLedger.add_ok_shape le t signer loc b delay sig sc t' st sg sl e HI Es) as [u0 [ui [_ [Eu [_ [_ [Hu' _]]]]]]].
+    unfold window. rewrite Hu', aget_map_update. destruct (N.eqb u u0) eqn:Ev; [|reflexivity].
+    apply N.eqb_eq in Ev. subst u. rewrite Eu. reflexivity.
+  - exact (same_ledger_window t t' u (TowerLedger.get_bal le t signer loc sc t' _ Es)).
+  - exact (same_ledger_window t t' u (TowerLedger.getsub_bal le t signer sc t' _ Es)).
+  - cbn [window_after]. pose proof (connect_purges_exactly le t hash txs sc t' HI Es u) as Hp.
+    unfold window. rewrite Hp. destruct (aget (db_users t) u) as [ui|]; [|reflexivity]. cbn [option_map].
+    destruct (N.leb (u_expiry ui + c_delta (cfg t)) (gk_height t + 1)); reflexivity.
+  - exact (same_ledger_window t t' u (TowerLedger.disconnect_bal le t sc t' _ Es)).
+Qed.
+
+(* ---------- the ghost: (number of granted registrations of u since u was last absent, the gatekeeper's height
+   at the first of them), kept along the run from the replies and from whether u has a row ---------- *)
+Definition ghost_step (u : N) (t : tower) (o : op) (x : out) (t' : tower) (g : N * N) : N * N :=
+  if amem (db_users t') u then
+    match o, x with
+    | ORegister v, ORegisterRes (RegOk _ _ _) =>
+        if N.eqb u v then (if N.eqb (fst g) 0 then (1, gk_height t) else (fst g + 1, snd g)) else g
+    | _, _ => g
+    end
+  else (0, 0).
+
+Fixpoint ghost_run (le : bool) (u : N) (t : tower) (h : list (op * script)) (g : N * N) : N * N :=
+  match h with
+  | [] => g
+  | (o, sc) :: r =>
+      match snd (step le t o sc) with
+      | OAbort _ => g
+      | x => ghost_run le u (fst (step le t o sc)) r (ghost_step u t o x (fst (step le t o sc)) g)
+      end
+  end.
+
+Definition ghost_ok (t : tower) (u : N) (g : N * N) : Prop :=
+  match window t u with
+  | None => g = (0, 0)
+  | Some (s, e) => 1 <= fst g /\ s = snd g /\ e = N.min U32MAX (snd g + c_duration (cfg t) * fst g)
+  end.
+
+Lemma amem_window t u : amem (db_users t) u = match window t u with Some _ => true | None => false end.
+Proof. unfold amem, window. destruct (aget (db_users t) u); reflexivity. Qed.
+
+Lemma ghost_ok_step le t o sc u g :
+  BigInv t -> envb t o = true -> ghost_ok t u g ->
+  ghost_ok (fst (step le t o sc)) u (ghost_step u t o (snd (step le t o sc)) (fst (step le t o sc)) g).
+Proof.
+  intros HB He Hg. pose proof (step_never_aborts le t o sc HB He) as Hna.
+  pose proof (window_step le t o sc u HB He) as Hw. pose proof (TowerLedger.step_cfg le t o sc Hna) as Hc.
+  pose proof (bi_inv t HB) as HI.
+  unfold ghost_ok, ghost_step in *. rewrite amem_window, Hc, Hw. clear Hw Hc.
+  assert (Hkeep : match window t u with
+                  | Some (s, e) => 1 <= fst g /\ s = snd g /\ e = N.min U32MAX (snd g + c_duration (cfg t) * fst g)
+                  | None => (if match window t u with Some _ => true | None => false end then g else (0, 0)) = (0, 0)
+                  end).
+  { destruct (window t u) as [[ws we]|]; [exact Hg|reflexivity]. }
+  destruct o as [v|signer loc b delay sig|signer loc|signer|hash txs|]; cbn [window_after].
+  - destruct (snd (step le t (ORegister v) sc)) as [r|r|r|r| |s0];
+      try (destruct (window t u) as [[ws we]|]; [exact Hkeep|exact Hkeep]).
+    destruct r as [sl st e0|]; [|destruct (window t u) as [[ws we]|]; [exact Hkeep|exact Hkeep]].
+    destruct (N.eqb u v) eqn:Ev; [|destruct (window t u) as [[ws we]|]; [exact Hkeep|exact Hkeep]].
+    apply N.eqb_eq in Ev. subst v. cbn [envb] in He.
+    destruct (window t u) as [[ws we]|] eqn:Ew.
+    + destruct Hg as [H1 [H2 H3]]. destruct (N.eqb_spec (fst g) 0) as [H0|H0]; [lia|]. cbn [fst snd].
+      split; [lia|]. split; [exact H2|]. rewrite H3. lia.
+    + subst g. cbn [fst snd]. change (N.eqb 0 0) with true. cbv iota. cbn [fst snd].
+      assert (Eg : gk_get t u = None).
+      { unfold gk_get. rewrite (inv_sync t HI). unfold window in Ew. destruct (aget (db_users t) u); [discriminate|reflexivity]. }
+      rewrite Eg in He. apply andb_true_iff in He. destruct He as [He1 _]. apply N.leb_le in He1.
+      split; [lia|]. split; [reflexivity|]. lia.
+  - destruct (snd (step le t (OAdd signer loc b delay sig) sc)); destruct (window t u) as [[ws we]|]; exact Hkeep.
+  - destruct (snd (step le t (OGet signer loc) sc)); destruct (window t u) as [[ws we]|]; exact Hkeep.
+  - destruct (snd (step le t (OGetSub signer) sc)); destruct (window t u) as [[ws we]|]; exact Hkeep.
+  - destruct (window t u) as [[ws we]|]; [|destruct (snd (step le t (OConnect hash txs) sc)); reflexivity].
+    destruct (N.leb (we + c_delta (cfg t)) (gk_height t + 1)); destruct (snd (step le t (OConnect hash txs) sc)); first [reflexivity|exact Hg].
+  - destruct (snd (step le t ODisconnect sc)); destruct (window t u) as [[ws we]|]; exact Hkeep.
+Qed.
+
+Lemma ghost_run_ok le u : forall h t g,
+  BigInv t -> in_envelope le t h = true -> chain_disciplined le t h = true -> ghost_ok t u g ->
+  ghost_ok (fst (run le t h)) u (ghost_run le u t h g).
+Proof.
+  induction h as [|[o sc] h IH]; intros t g HB He Hc Hg; [exact Hg|].
+  cbn [in_envelope chain_disciplined] in He, Hc. apply andb_true_iff in He, Hc.
+  destruct He as [He1 He2]. destruct Hc as [Hc1 Hc2].
+  pose proof (step_never_aborts le t o sc HB He1) as Hna. pose proof (step_big le t o sc HB He1 Hc1) as HB1.
+  pose proof (ghost_ok_step le t o sc u g HB He1 Hg) as Hg1.
+  rewrite (run_cons_ok le t o sc h Hna). cbn [fst ghost_run].
+  destruct (snd (step le t o sc)) eqn:Ex; try contradiction; exact (IH _ _ HB1 He2 Hc2 Hg1).
+Qed.
+
+Lemma run_cfg le h t : Forall not_abort (snd (run le t h)) -> cfg (fst (run le t h)) = cfg t.
+Proof. exact (run_pres (fun t' => cfg t' = cfg t) (TowerLedger.cfg_stable (cfg t)) le h t eq_refl). Qed.
+
+Lemma init_fields c h0 blocks t0 :
+  init c h0 blocks = Some t0 -> cfg t0 = c /\ db_users t0 = [] /\ db_trks t0 = [] /\ reorged t0 = [] /\ db_apps t0 = [].
+Proof.
+  unfold init. destruct (ti_new _ _); [|discriminate]. destruct (ti_new _ _); [|discriminate].
+  intros H. injection H as <-. repeat split.
+Qed.
+
+(* C09 expiry_formula, run level: in every state a run reaches, for every registered user: at least one
+   registration is counted, its start is the gatekeeper's height at the first registration since it was last
+   absent, and its expiry is start + duration * (registrations since then), saturated at u32::MAX; without
+   saturation whenever the grace period is at least one block.  (Every prefix of a history inside the envelope is
+   a history inside the envelope — env_app — so this is "at every moment of every run".) *)
+Theorem expiry_formula_run le c h0 blocks t0 h u ui :
+  init c h0 blocks = Some t0 -> NoDup (map fst blocks) -> N.of_nat (length blocks) <= h0 ->
+  in_envelope le t0 h = true -> chain_disciplined le t0 h = true ->
+  aget (db_users (fst (run le t0 h))) u = Some ui ->
+  let n := fst (ghost_run le u t0 h (0, 0)) in
+  let s := snd (ghost_run le u t0 h (0, 0)) in
+  1 <= n /\ u_start ui = s /\ u_expiry ui = N.min U32MAX (s + c_duration c * n) /\
+  (1 <= c_delta c -> u_expiry ui = s + c_duration c * n).
+Proof.
+  intros Hi Hnd Hlen He Hc Hu n s. pose proof (big_init c h0 blocks t0 Hi Hnd Hlen) as HB.
+  destruct (init_fields c h0 blocks t0 Hi) as [Hcfg [Hus _]].
+  assert (Hg0 : ghost_ok t0 u (0, 0)) by (unfold ghost_ok, window; rewrite Hus; reflexivity).
+  pose proof (ghost_run_ok le u h t0 (0, 0) HB He Hc Hg0) as Hg.
+  destruct (no_abort_from le h t0 HB He Hc) as [Hall [HB1 _]].
+  unfold ghost_ok, window in Hg. rewrite Hu, (run_cfg le h t0 Hall), Hcfg in Hg. cbn [option_map] in Hg.
+  fold n s in Hg. destruct Hg as [H1 [H2 H3]]. split; [exact H1|]. split; [exact H2|]. split; [exact H3|].
+  intros Hd. pose proof (bi_exp _ HB1 u ui Hu) as Hexp. rewrite (run_cfg le h t0 Hall), Hcfg in Hexp.
+  unfold U32MAX in *. lia.
+Qed.
+
+(* the same along a run that starts from any state satisfying the big invariant, given a ghost that is right there *)
+Theorem expiry_formula_from le t0 h u g ui :
+  BigInv t0 -> in_envelope le t0 h = true -> chain_disciplined le t0 h = true -> ghost_ok t0 u g ->
+  aget (db_users (fst (run le t0 h))) u = Some ui ->
+  1 <= fst (ghost_run le u t0 h g) /\ u_start ui = snd (ghost_run le u t0 h g) /\
+  u_expiry ui = N.min U32MAX (snd (ghost_run le u t0 h g) + c_duration (cfg t0) * fst (ghost_run le u t0 h g)).
+Proof.
+  intros HB He Hc Hg0 Hu. pose proof (ghost_run_ok le u h t0 g HB He Hc Hg0) as Hg.
+  destruct (no_abort_from le h t0 HB He Hc) as [Hall _].
+  unfold ghost_ok, window in Hg. rewrite Hu, (run_cfg le h t0 Hall) in Hg. exact Hg.
+Qed.
+
+(* ---------- the gate ---------- *)
+(* the subscription-expired error of a reply, with the expiry it states *)
+Definition gate_reply (x : out) : option N :=
+  match x with
+  | OAddRes (AddExpired e) | OGetRes (GetExpired e) | OSubRes (SubExpired e) => Some e
+  | _ => None
+  end.
+
+Definition request_of (o : op) : option N :=
+  match o with
+  | OAdd (Some v) _ _ _ _ | OGet (Some v) _ | OGetSub (Some v) => Some v
+  | _ => None
+  end.
+
+(* ONE STEP: a request signed by a registered user is answered with the subscription-expired error iff the
+   gatekeeper's height has reached its expiry, and the error states that expiry (whatever else the request is) *)
+Theorem gate_exact le t o sc u ui :
+  Inv t -> aget (db_users t) u = Some ui -> request_of o = Some u ->
+  gate_reply (snd (step le t o sc)) = if N.leb (u_expiry ui) (gk_height t) then Some (u_expiry ui) else None.
+Proof.
+  intros HI Hu Ho. assert (Eg : aget (gk_users t) u = Some ui) by (rewrite (inv_sync t HI); exact Hu).
+  assert (Hm : amem (gk_users t) u = true) by (unfold amem; rewrite Eg; reflexivity).
+  destruct o as [v|[v|] loc b delay sig|[v|] loc|[v|]|hash txs|]; try discriminate; injection Ho as ->;
+    cbn [step wrap]; change (set_rpc_log t []) with (fresh t).
+  - unfold w_add_appointment, authenticate. change (gk_users (fresh t)) with (gk_users t). rewrite Hm.
+    unfold gk_get at 1. change (gk_users (fresh t)) with (gk_users t). rewrite Eg.
+    change (gk_height (fresh t)) with (gk_height t).
+    destruct (N.leb (u_expiry ui) (gk_height t)); [reflexivity|].
+    destruct (find_trk (db_trks (fresh t)) (loc, u)); [reflexivity|].
+    unfold gk_add_update_appointment, gk_get. change (gk_users (fresh t)) with (gk_users t). rewrite Eg.
+    match goal with |- context [if ?c then _ else _] => destruct c end; cbn [bind]; [|reflexivity].
+    match goal with |- context [bind ?r _] => destruct r as [[] t2|s t2] end; reflexivity.
+  - unfold w_get_appointment, authenticate. change (gk_users (fresh t)) with (gk_users t). rewrite Hm.
+    unfold gk_get. change (gk_users (fresh t)) with (gk_users t). rewrite Eg.
+    change (gk_height (fresh t)) with (gk_height t).
+    destruct (N.leb (u_expiry ui) (gk_height t)); [reflexivity|].
+    destruct (find_trk (db_trks (fresh t)) (loc, u)), (find_app (db_apps (fresh t)) (loc, u)); reflexivity.
+  - unfold w_get_subscription_info, authenticate. change (gk_users (fresh t)) with (gk_users t). rewrite Hm.
+    unfold gk_get. change (gk_users (fresh t)) with (gk_users t). rewrite Eg.
+    change (gk_height (fresh t)) with (gk_height t).
+    destruct (N.leb (u_expiry ui) (gk_height t)); reflexivity.
+Qed.
+
+(* C09 usable_iff, run level: at every moment of every run *)
+Theorem usable_iff_run le c h0 blocks t0 h pre o sc post u ui :
+  init c h0 blocks = Some t0 -> NoDup (map fst blocks) -> N.of_nat (length blocks) <= h0 ->
+  in_envelope le t0 h = true -> chain_disciplined le t0 h = true ->
+  h = pre ++ (o, sc) :: post ->
+  let t := fst (run le t0 pre) in
+  aget (db_users t) u = Some ui -> request_of o = Some u ->
+  gate_reply (snd (step le t o sc)) = if N.leb (u_expiry ui) (gk_height t) then Some (u_expiry ui) else None.
+Proof.
+  intros Hi Hnd Hlen He Hc E t Hu Ho.
+  destruct (reach_cut le c h0 blocks t0 h pre o sc post Hi Hnd Hlen He Hc E) as [F1 F2 F3 F4 F5 F6 F7 F8 F9].
+  exact (gate_exact le t o sc u ui (bi_inv _ F2) Hu Ho).
+Qed.
+
+(* ---------- no other deletion ---------- *)
+Theorem user_deleted_only_by_purge le t o sc u ui :
+  BigInv t -> envb t o = true -> aget (db_users t) u = Some ui ->
+  (aget (db_users (fst (step le t o sc))) u = None <->
+   exists hash txs, o = OConnect hash txs /\ u_expiry ui + c_delta (cfg t) <= gk_height t + 1).
+Proof.
+  intros HB He Hu. pose proof (window_step le t o sc u HB He) as Hw.
+  assert (Hn : aget (db_users (fst (step le t o sc))) u = None <-> window (fst (step le t o sc)) u = None).
+  { unfold window. destruct (aget (db_users (fst (step le t o sc))) u); cbn; split; congruence. }
+  rewrite Hn, Hw. unfold window_after, window. rewrite Hu. cbn [option_map].
+  destruct o as [v|signer loc b delay sig|signer loc|signer|hash txs|].
+  - split; [|intros [hh [tx [E _]]]; discriminate].
+    destruct (snd (step le t (ORegister v) sc)) as [r|r|r|r| |s0]; try discriminate.
+    destruct r; [destruct (N.eqb u v)|]; discriminate.
+  - split; [|intros [hh [tx [E _]]]; discriminate]. destruct (snd (step le t _ sc)); discriminate.
+  - split; [|intros [hh [tx [E _]]]; discriminate]. destruct (snd (step le t _ sc)); discriminate.
+  - split; [|intros [hh [tx [E _]]]; discriminate]. destruct (snd (step le t _ sc)); discriminate.
+  - assert (Hcase : (match snd (step le t (OConnect hash txs) sc) with
+                     | _ => if N.leb (u_expiry ui + c_delta (cfg t)) (gk_height t + 1) then None else Some (u_start ui, u_expiry ui)
+                     end = None) <-> u_expiry ui + c_delta (cfg t) <= gk_height t + 1).
+    { destruct (snd (step le t (OConnect hash txs) sc));
+        destruct (N.leb_spec (u_expiry ui + c_delta (cfg t)) (gk_height t + 1)); split; intros; try discriminate; try lia; reflexivity. }
+    destruct (snd (step le t (OConnect hash txs) sc)); (split; [intros H; exists hash, txs; split; [reflexivity|apply Hcase; exact H]|
+                                                                 intros [hh [tx [E H]]]; apply Hcase; exact H]).
+  - split; [|intros [hh [tx [E _]]]; discriminate]. destruct (snd (step le t _ sc)); discriminate.
+Qed.
+
+(* C09 "never earlier, never touching other users", run level: at every moment of every run, a user row that is
+   there before the step is gone after it iff the step connects a block at height >= its expiry + grace; and its
+   window is moved by nothing but its own granted renewal (window_after) *)
+Theorem no_other_deletion_run le c h0 blocks t0 h pre o sc post u ui :
+  init c h0 blocks = Some t0 -> NoDup (map fst blocks) -> N.of_nat (length blocks) <= h0 ->
+  in_envelope le t0 h = true -> chain_disciplined le t0 h = true ->
+  h = pre ++ (o, sc) :: post ->
+  let t := fst (run le t0 pre) in
+  let t' := fst (run le t0 (pre ++ [(o, sc)])) in
+  aget (db_users t) u = Some ui ->
+  (aget (db_users t') u = None <->
+   exists hash txs, o = OConnect hash txs /\ u_expiry ui + c_delta c <= gk_height t + 1) /\
+  window t' u = window_after t o (snd (step le t o sc)) u.
+Proof.
+  intros Hi Hnd Hlen He Hc E t t' Hu.
+  destruct (reach_cut le c h0 blocks t0 h pre o sc post Hi Hnd Hlen He Hc E) as [F1 F2 F3 F4 F5 F6 F7 F8 F9].
+  unfold t'. rewrite F6. fold t.
+  assert (Hcfg : cfg t = c) by (unfold t; rewrite (run_cfg le pre t0 F1); apply (init_fields c h0 blocks t0 Hi)).
+  rewrite <- Hcfg. split; [exact (user_deleted_only_by_purge le t o sc u ui F2 F3 Hu)|exact (window_step le t o sc u F2 F3)].
+Qed.
